@@ -64,6 +64,10 @@ def build(rec):
         return Line(Pm(rec[1]), Vm(rec[2]))
     if k == 'Line/PP':
         return Line(Pm(rec[1]), Pm(rec[2]))
+    if k == 'Line/sharedPP':
+        return Line(lib.use_point_elsewhere(Pm(rec[1])), Pm(rec[2]))
+    if k == 'Plane/sharedPN':
+        return Plane(lib.use_point_elsewhere(Pm(rec[1])), Vm(rec[2]))
     if k == 'Line/VV':
         return Line(Vm(rec[1]), Vm(rec[2]))
     if k == 'HalfLine/PV':
@@ -127,8 +131,10 @@ def den(rec):
         return ('Vector', X.sub(rec[2], rec[1]))
     if k in ('Line/PV', 'Line/VV'):
         return X.Ln(rec[1], rec[2])
-    if k == 'Line/PP':
+    if k in ('Line/PP', 'Line/sharedPP'):
         return X.Ln(rec[1], X.sub(rec[2], rec[1]))
+    if k == 'Plane/sharedPN':
+        return X.Pl(rec[1], rec[2])
     if k in ('HalfLine/PV', 'HalfLine/PnegnegV'):
         return X.Hl(rec[1], rec[2])
     if k == 'Line/PnegnegV':
@@ -326,6 +332,7 @@ def line_group(p, d):
     for k in KS[1:]:
         reps.append(('Line/PV', p, X.scal(k, d), 'float'))
     reps.append(('Line/PP', p, X.add(p, d), 'float'))
+    reps.append(('Line/sharedPP', p, X.add(p, d), 'float'))
     reps.append(('Line/PP', X.add(p, X.scal(2, d)), X.sub(p, d), 'float'))
     reps.append(('Line/VV', p, d, 'float'))
     reps.append(('Line/PnegnegV', p, d, 'float'))
@@ -392,6 +399,7 @@ def plane_group(p, n):
     for k in KS[1:]:
         reps.append(('Plane/PN', p, X.scal(k, n), 'float'))
     reps.append(('Plane/PN', X.add(p, v), n, 'float'))
+    reps.append(('Plane/sharedPN', p, n, 'float'))
     reps.append(('Plane/PN', X.add(X.add(p, X.scal(-2, v)), w), X.neg(n), 'float'))
     reps.append(('Plane/3P', p, X.add(p, v), X.add(p, w), 'float'))
     reps.append(('Plane/3P', X.add(p, w), X.add(p, v), p, 'float'))
